@@ -373,6 +373,76 @@ def run_cfg(exe, cfg, fault, seed):
     return w, sim
 
 
+def both_case(exe, it, run, stats):
+    """one exchange whose request body AND response body are both block-wise (FETCH with a
+    large body answered with a large body), loss-free; single-body delivery on both sides"""
+    r = common.rng("c09-both-%d" % it)
+    qlen = r.choice([17, 64, 100, 1025, 2048, 3000, 5000])
+    rlen = r.choice([33, 100, 1024, 1500, 2048, 5000])
+    qseed, rseed = r.randint(1, 10 ** 6), r.randint(1, 10 ** 6)
+    cfg = {"client_maxblk": r.choice([0, 16, 64, 256, 1024]), "server_maxblk": r.choice([0, 0, 32, 256]),
+           "mtu": r.choice([0, 0, 128, 300, 1152]), "typ": r.choice([0, 0, 1])}
+    tok = bytes([0xFB, r.getrandbits(8), r.getrandbits(8)])
+    w = world.World(exe, seed=r.getrandbits(30))
+    sim = world.Sim(w, latency=3)
+    witness = {"kind": "both", "item": it, "cfg": cfg, "request_len": qlen, "response_len": rlen,
+               "token": tok.hex(), "script": w.script}
+    try:
+        ckw = {"block_mode": 3}
+        skw = {"block_mode": 3}
+        if cfg["client_maxblk"]:
+            ckw["max_block"] = cfg["client_maxblk"]
+        if cfg["server_maxblk"]:
+            skw["max_block"] = cfg["server_maxblk"]
+        if cfg["mtu"]:
+            skw["srv_mtu"] = cfg["mtu"]
+        sim.cmd("fullpayload 1")
+        sim.add_node(0, **ckw)
+        sim.add_node(1, **skw)
+        sim.cmd("ep 1 udp %s" % SERVER)
+        path = b"fb"
+        sim.cmd("res 1 %s store=1 body=gen:%d:%d large=1" % (path.hex(), rlen, rseed))
+        sim.cmd("sess 0 0 udp %s%s" % (SERVER, " mtu=%d" % cfg["mtu"] if cfg["mtu"] else ""))
+        sim.cmd("send 0 0 type=%d code=5 token=%s opts=11=%s,12=2a large=%d:%d" %
+                (cfg["typ"], tok.hex(), path.hex(), qlen, qseed))
+        sim.run(horizon=400000)
+        qbody, rbody = gen_body(qseed, qlen), gen_body(rseed, rlen)
+        reqs = [e for e in sim.log if e["e"] == "req" and e.get("n") == 1 and e["res"] == "fb"]
+        full = [e for e in reqs if e.get("plen", -1) == qlen and e.get("poff", 0) == 0 and
+                (bytes.fromhex(e["phex"]) == qbody if "phex" in e else e.get("pfnv") == fnv64(qbody))]
+        rsps = [e for e in sim.log if e["e"] == "rsp" and e.get("n") == 0]
+        good = [e for e in rsps if e["tok"] == tok.hex() and e["code"] == 0x45 and
+                e.get("plen", -1) == rlen and
+                (bytes.fromhex(e["phex"]) == rbody if "phex" in e else e.get("pfnv") == fnv64(rbody))]
+        stats["both_exchanges"] = stats.get("both_exchanges", 0) + 1
+        loc = "both/lossless"
+        if len(full) != 1:
+            run.violation("lossless-transfer-incomplete/%s/request-body" % loc, witness,
+                          "the server application obtained the complete %d-byte request body %d "
+                          "times (handler calls: %r)" % (qlen, len(full),
+                                                         [(e.get("plen"), e.get("poff")) for e in reqs]))
+        if len(good) != 1:
+            run.violation("lossless-transfer-incomplete/%s/response-body" % loc, witness,
+                          "the requester obtained the complete %d-byte response body %d times; "
+                          "responses seen: %r" % (rlen, len(good),
+                                                  [(e["tok"], e["code"], e.get("plen")) for e in rsps]))
+        for e in rsps:
+            if e["tok"] != tok.hex():
+                run.violation("handler-saw-substituted-token/rsp/%s" % loc, witness,
+                              "response handler called with token %s" % e["tok"])
+        evs, rc, err = w.close()
+        if rc not in (0, None):
+            sg = common.sanitizer_signature(err) or "exit-rc%s" % rc
+            run.violation("teardown/both/%s" % sg, dict(witness, stderr=err[-3000:]), err[-1500:])
+        return ("both", qlen > 1024, rlen > 1024, cfg["client_maxblk"], cfg["server_maxblk"],
+                bool(cfg["mtu"]), cfg["typ"])
+    except world.WorldCrash as e:
+        world.crash_violation(run, "C09/both", e, witness)
+    finally:
+        if not w.closed:
+            w.close(kill=True)
+
+
 def work(job):
     kind, items, exe = job
     run = common.Run("C09", "quick", "exploration")
@@ -384,6 +454,12 @@ def work(job):
     for it in items:
         w = None
         witness = {"kind": kind, "item": repr(it)[:200], "seed": common.seed()}
+        if kind == "both":
+            sg = both_case(exe, it, run, stats)
+            if sg:
+                sigs.add(sg)
+            n += 1
+            continue
         try:
             if kind == "lengths":
                 r = common.rng("c09-len-%r" % (it,))
@@ -513,7 +589,8 @@ def main(tier):
                 "exhaustively {k*2^s-1, k*2^s, k*2^s+1 | s=4..10, k=0..5} plus 0, 1 and random "
                 "up to 64 KiB; max block size 16..1024 on either side, session MTU 64..1400, "
                 "single-body and per-block delivery, CON and NON, two concurrent transfers; "
-                "loss-free transfers of 20+ blocks on every path MTU 64..330 (thorough ..1200); "
+                "loss-free FETCH exchanges whose request and response bodies are both "
+                "block-wise; loss-free transfers of 20+ blocks on every path MTU 64..330 (thorough ..1200); "
                 "fault plans: none / every {deliver,drop,duplicate} assignment to the first N "
                 "datagrams of a 3-block transfer / random loss+duplication+delay; "
                 "distinct_nontrivial = distinct (kind, length class, modes, sizes, fault) tuples")
@@ -548,6 +625,9 @@ def main(tier):
         sweep = [(k, m) for m in range(64, 1201) for k in ("get", "put")]
     for i in range(0, len(sweep), 8):
         jobs.append(("mtusweep", sweep[i:i + 8], exe))
+    nboth = 96 if tier == "quick" else 3000
+    for i in range(0, nboth, 8):
+        jobs.append(("both", list(range(i, min(nboth, i + 8))), exe))
     nab = 24 if tier == "quick" else 600
     for i in range(0, nab, chunk):
         jobs.append(("abandon", list(range(i, min(nab, i + chunk))), exe))
